@@ -1,0 +1,180 @@
+//! Verification hook (only compiled with `--cfg metrics_verif`).
+//!
+//! A synchronous stand-in for the forwarder loop: it owns the exporter [`State`](crate::state), a `FlushState` and a
+//! `PayloadWriter`, hands out metric handles through the real [`DogStatsDRecorder`], and `flush_once` performs exactly
+//! one iteration of `Forwarder::run` minus the sleeping and the socket: the payloads it returns are the byte strings
+//! the forwarder would pass to `try_send`, in order. The aggregation timestamp is injected instead of read from the
+//! system clock. Nothing here is used by the exporter itself.
+#![allow(missing_docs)]
+
+use std::sync::{
+    atomic::{AtomicBool, AtomicU64, Ordering::SeqCst},
+    Arc,
+};
+
+use metrics::{Counter, CounterFn as _, Gauge, GaugeFn as _, Histogram, Key, Label, Metadata, Recorder as _};
+
+use crate::{
+    builder::AggregationMode,
+    recorder::DogStatsDRecorder,
+    state::{FlushState, State, StateConfiguration},
+    storage::{AtomicCounter, AtomicGauge},
+    telemetry::TelemetryUpdate,
+    writer::PayloadWriter,
+};
+
+static NOW_SET: AtomicBool = AtomicBool::new(false);
+static NOW: AtomicU64 = AtomicU64::new(0);
+
+/// Sets (or clears) the value `State::get_aggregation_timestamp` uses in place of the system clock.
+pub fn inject_now(now: Option<u64>) {
+    if let Some(now) = now {
+        NOW.store(now, SeqCst);
+    }
+    NOW_SET.store(now.is_some(), SeqCst);
+}
+
+/// The injected clock reading, if any.
+pub(crate) fn injected_now() -> Option<u64> {
+    if NOW_SET.load(SeqCst) {
+        Some(NOW.load(SeqCst))
+    } else {
+        None
+    }
+}
+
+/// Configuration of a [`Driver`]: the fields of `StateConfiguration` plus the two `PayloadWriter` parameters the
+/// forwarder derives from its own configuration.
+pub struct Config {
+    pub aggressive: bool,
+    pub histogram_sampling: bool,
+    pub histogram_reservoir_size: usize,
+    pub histograms_as_distributions: bool,
+    pub global_labels: Vec<Label>,
+    pub global_prefix: Option<String>,
+    pub max_payload_len: usize,
+    pub length_prefixed: bool,
+}
+
+/// The crate-private `AtomicCounter` of one key (the storage the registry holds for it).
+#[derive(Clone)]
+pub struct RawCounter(Arc<AtomicCounter>);
+
+impl RawCounter {
+    pub fn increment(&self, value: u64) {
+        self.0.increment(value);
+    }
+
+    pub fn absolute(&self, value: u64) {
+        self.0.absolute(value);
+    }
+
+    /// `AtomicCounter::flush`: `(delta, updates)`.
+    pub fn flush(&self) -> (u64, u64) {
+        self.0.flush()
+    }
+}
+
+/// The crate-private `AtomicGauge` of one key.
+#[derive(Clone)]
+pub struct RawGauge(Arc<AtomicGauge>);
+
+impl RawGauge {
+    pub fn increment(&self, value: f64) {
+        self.0.increment(value);
+    }
+
+    pub fn decrement(&self, value: f64) {
+        self.0.decrement(value);
+    }
+
+    pub fn set(&self, value: f64) {
+        self.0.set(value);
+    }
+
+    /// `AtomicGauge::flush`: `(value, updates)`.
+    pub fn flush(&self) -> (f64, u64) {
+        self.0.flush()
+    }
+}
+
+/// Exporter state, recorder, flush state and payload writer, driven synchronously.
+pub struct Driver {
+    state: Arc<State>,
+    recorder: DogStatsDRecorder,
+    flush_state: FlushState,
+    writer: PayloadWriter,
+    telemetry_update: TelemetryUpdate,
+}
+
+impl Driver {
+    /// `State::new`, `DogStatsDRecorder::new`, and what `Forwarder::run` sets up before its loop.
+    pub fn new(config: Config) -> Self {
+        let state = Arc::new(State::new(StateConfiguration {
+            agg_mode: if config.aggressive {
+                AggregationMode::Aggressive
+            } else {
+                AggregationMode::Conservative
+            },
+            telemetry: false,
+            histogram_sampling: config.histogram_sampling,
+            histogram_reservoir_size: config.histogram_reservoir_size,
+            histograms_as_distributions: config.histograms_as_distributions,
+            global_labels: config.global_labels,
+            global_prefix: config.global_prefix,
+        }));
+        let recorder = DogStatsDRecorder::new(Arc::clone(&state));
+        Driver {
+            state,
+            recorder,
+            flush_state: FlushState::default(),
+            writer: PayloadWriter::new(config.max_payload_len, config.length_prefixed),
+            telemetry_update: TelemetryUpdate::default(),
+        }
+    }
+
+    /// `Recorder::register_counter` on the exporter's recorder.
+    pub fn counter(&self, key: &Key) -> Counter {
+        static METADATA: Metadata<'static> = Metadata::new("verif", metrics::Level::INFO, None);
+        self.recorder.register_counter(key, &METADATA)
+    }
+
+    /// `Recorder::register_gauge` on the exporter's recorder.
+    pub fn gauge(&self, key: &Key) -> Gauge {
+        static METADATA: Metadata<'static> = Metadata::new("verif", metrics::Level::INFO, None);
+        self.recorder.register_gauge(key, &METADATA)
+    }
+
+    /// `Recorder::register_histogram` on the exporter's recorder.
+    pub fn histogram(&self, key: &Key) -> Histogram {
+        static METADATA: Metadata<'static> = Metadata::new("verif", metrics::Level::INFO, None);
+        self.recorder.register_histogram(key, &METADATA)
+    }
+
+    /// The registry's storage cell for a counter key (created if absent, like `register_counter`).
+    pub fn raw_counter(&self, key: &Key) -> RawCounter {
+        RawCounter(self.state.registry().get_or_create_counter(key, Arc::clone))
+    }
+
+    /// The registry's storage cell for a gauge key (created if absent, like `register_gauge`).
+    pub fn raw_gauge(&self, key: &Key) -> RawGauge {
+        RawGauge(self.state.registry().get_or_create_gauge(key, Arc::clone))
+    }
+
+    /// One iteration of the loop of `Forwarder::run` with `now` as the clock reading: clear the telemetry update,
+    /// `State::flush`, then take every payload from `writer.payloads()`. Returns the payloads in the order the
+    /// forwarder would send them, and `(counter_points, gauge_points, histogram_points)` of the telemetry update.
+    pub fn flush_once(&mut self, now: u64) -> (Vec<Vec<u8>>, (u64, u64, u64)) {
+        inject_now(Some(now));
+        self.telemetry_update.clear();
+        self.state.flush(&mut self.flush_state, &mut self.writer, &mut self.telemetry_update);
+        inject_now(None);
+
+        let mut out = Vec::new();
+        let mut payloads = self.writer.payloads();
+        while let Some(payload) = payloads.next_payload() {
+            out.push(payload.to_vec());
+        }
+        (out, self.telemetry_update.verif_points())
+    }
+}
